@@ -9,13 +9,17 @@
 //! runs over TLS (`get_peer_certificate()` is `Some`) and, when establishment succeeds, the result of a
 //! `simple_bind` which the server answers INSIDE TLS with a code different from the forged cleartext one.
 //!
-//!   M tls.run <scheme> <starttls> <no_verify> <connector> <conn_timeout> <readfirst> <chunks> <end> <hs> <cert>
+//!   M tls.run <scheme> <starttls> <no_verify> <connector> <conn_timeout> <early> <chunks> <end> <hs> <cert>
 //!         TAB <outcome> writes=<cleartext messages received before the handshake> tls=<0|1>
 //!   R the clauses of C17 evaluated on the observations (independent of the model)
 //!
 //! Timing: scenarios run concurrently; nothing depends on a sleep except (harmlessly) the split of one
 //! response over two writes; "separate write behind the response" waits for the ClientHello instead.
-//! Stalling scenarios end by `conn_timeout` (1 s) or, without one, by the lane's own 4 s limit (`hang`).
+//! Stalling scenarios (a silent peer) end by `conn_timeout` (1 s) or, without one, by the lane's own 4 s
+//! limit (`hang`).  Corpus witnesses of the repaired defect F21 (peer closes after the request / answers
+//! under another message ID: establishment used to wait for ever): `starttls/close-after-request/*`,
+//! `starttls/foreign-id*`; strict oracles `tls.peer-closes-after-request-fails-promptly` and
+//! `tls.foreign-id-then-success-completes`.
 use crate::fmtx::hex;
 use crate::out::Out;
 use crate::rng::Rng;
@@ -499,6 +503,8 @@ struct CliObs {
     peer_cert: Option<bool>,
     bind: Option<(u32, String)>,
     log_at_return: Vec<u8>,
+    /// how long establishment took
+    elapsed_ms: u64,
 }
 
 fn err_kind(e: &LdapError) -> String {
@@ -535,7 +541,9 @@ async fn client(cfg: Cfg, port: u16, log: Arc<Mutex<Vec<u8>>>) -> CliObs {
         settings = settings.set_connector(custom_connector(accept_invalid));
     }
     let url = format!("{}://{}:{}", if cfg.scheme == Scheme::Ldap { "ldap" } else { "ldaps" }, cfg.host, port);
+    let t0 = std::time::Instant::now();
     let est = tokio::time::timeout(Duration::from_millis(OUTER_MS), LdapConnAsync::with_settings(settings, &url)).await;
+    obs.elapsed_ms = t0.elapsed().as_millis() as u64;
     obs.log_at_return = log.lock().unwrap().clone();
     match est {
         Err(_) => obs.outcome = String::from("hang"),
@@ -710,14 +718,22 @@ fn scenarios(thorough: bool, rng: &mut Rng) -> Vec<Scen> {
         v.push(Scen { name: format!("starttls/half-response-close/timeout{}/{}", timeout as u8, vname(&cfg)), cfg, script: vec![Step::ReadReq, Step::Write(half.clone())], chunks: vec![half.clone()], end: End::Eof, hs: Hs::Fail, cert: Cert::Good, bad: Some("close"), forged: false });
         let cfg = next_cfg(timeout);
         v.push(Scen { name: format!("starttls/half-response-silence/timeout{}/{}", timeout as u8, vname(&cfg)), cfg, script: vec![Step::ReadReq, Step::Write(half.clone()), Step::Hold], chunks: vec![half], end: End::Silent, hs: Hs::Stall, cert: Cert::Good, bad: Some("silence"), forged: false });
-        // a success for another message ID (alone, or followed by the right one in the same write)
+        // a success for another message ID, then silence: the frame is dropped, the client keeps waiting
         let other = result_msg(7, 24, 0, "other-id");
         let cfg = next_cfg(timeout);
         v.push(Scen { name: format!("starttls/foreign-id/timeout{}/{}", timeout as u8, vname(&cfg)), cfg, script: vec![Step::ReadReq, Step::Write(other.clone()), Step::Hold], chunks: vec![other.clone()], end: End::Silent, hs: Hs::Stall, cert: Cert::Good, bad: Some("silence"), forged: false });
-        let mut both = other.clone();
-        both.extend(success_resp());
+        // ... then close: an error
         let cfg = next_cfg(timeout);
-        v.push(Scen { name: format!("starttls/foreign-id-then-success/timeout{}/{}", timeout as u8, vname(&cfg)), cfg, script: vec![Step::ReadReq, Step::Write(both.clone()), Step::Hold], chunks: vec![both], end: End::Silent, hs: Hs::Stall, cert: Cert::Good, bad: Some("silence"), forged: false });
+        v.push(Scen { name: format!("starttls/foreign-id-then-close/timeout{}/{}", timeout as u8, vname(&cfg)), cfg, script: vec![Step::ReadReq, Step::Write(other.clone())], chunks: vec![other.clone()], end: End::Eof, hs: Hs::Fail, cert: Cert::Good, bad: Some("close"), forged: false });
+        // ... then the real response (same write / separate write): the exchange completes
+        for (j, conn) in [Connector::Custom(false), Connector::Default].into_iter().enumerate() {
+            let cfg = Cfg { scheme: Scheme::Ldap, starttls: true, no_verify: conn == Connector::Default, conn, timeout, host: hosts[j] };
+            let mut both = other.clone();
+            both.extend(success_resp());
+            both.extend(forged_frames());
+            v.push(Scen { name: format!("starttls/foreign-id-then-success/same-write/timeout{}/{}", timeout as u8, vname(&cfg)), cfg, script: vec![Step::ReadReq, Step::Write(both.clone()), Step::Tls(Cert::Good)], chunks: vec![both], end: End::Eof, hs: Hs::Ok, cert: Cert::Good, bad: None, forged: true });
+            v.push(Scen { name: format!("starttls/foreign-id-then-success/separate-write/timeout{}/{}", timeout as u8, vname(&cfg)), cfg, script: vec![Step::ReadReq, Step::Write(other.clone()), Step::Pause, Step::Write(success_resp()), Step::Tls(Cert::Good)], chunks: vec![other.clone(), success_resp()], end: End::Eof, hs: Hs::Ok, cert: Cert::Good, bad: None, forged: false });
+        }
     }
 
     // --- success, then the handshake: every certificate under every verification setting
@@ -872,6 +888,23 @@ fn judge(out: &mut Out, r: &Ran) {
     } else if mode != "plain" {
         // and a good one succeeds (the scenarios are not vacuous)
         out.r(&format!("tls.good-establishment-succeeds {}", s.name), r.cli.outcome == "ok-secure", &format!("outcome={} server={}", r.cli.outcome, r.srv.note));
+    }
+
+    // strict oracles for the repaired defect F21
+    if s.name.starts_with("starttls/close-after-request/timeout0") || s.name.starts_with("starttls/foreign-id-then-close/timeout0") {
+        // no conn_timeout is set: the peer's close must end establishment with an error by itself
+        out.r(
+            &format!("tls.peer-closes-after-request-fails-promptly {}", s.name),
+            r.cli.outcome.starts_with("err:") && r.cli.outcome != "err:Timeout" && r.cli.elapsed_ms < OUTER_MS / 2,
+            &format!("outcome={} after {} ms (no conn_timeout set)", r.cli.outcome, r.cli.elapsed_ms),
+        );
+    }
+    if s.name.starts_with("starttls/foreign-id-then-success/") {
+        out.r(
+            &format!("tls.foreign-id-then-success-completes {}", s.name),
+            r.cli.outcome == "ok-secure" && r.cli.bind == Some((INNER_RC, String::from(INNER_TEXT))),
+            &format!("outcome={} bind={:?}", r.cli.outcome, r.cli.bind),
+        );
     }
 
     // R4: inside the protected session the caller sees what the server sent inside TLS, never the forged frames
